@@ -1131,6 +1131,7 @@ func (c *Conn) exec(ctx context.Context, req frameBuilder, tracer Tracer) (*fram
 
 	verifPoint("exec.built")
 	n, err := c.w.writeContext(ctx, framer.buf)
+	verifWrote(framer.buf, n, err)
 	verifPoint("exec.written")
 	if err != nil {
 		// closeWithError will block waiting for this stream to either receive a response
